@@ -163,6 +163,10 @@ class World(object):
             if deep_state(d) != deep0:
                 bad.append('serialising a tree changed one of its dictionaries (nested keys / values)')
             self.trees.append(new)
+        elif k == 'Z':
+            # a stream without any section (empty, or blank lines only) through the SAME reader
+            # object: the library accepts it and returns an empty tree, which must be a new one
+            self.trees.append(self.reader.parse(io.BytesIO(b'' if op[1:] == '0' else b'\n\n')))
         elif k == 'E':
             # a fresh empty dictionary of the caller's (stored as given: the setter keeps a reference)
             t, p, kk = op[1:].split('.')
@@ -228,8 +232,10 @@ def gen_ops(rng, n):
             t = rng.randrange(len(w.trees))
             d = w.trees[t]
             r = rng.random()
-            if r < 0.10 and len(w.trees) < 4:
+            if r < 0.07 and len(w.trees) < 4:
                 op = 'N'
+            elif r < 0.10 and len(w.trees) < 5:
+                op = 'Z%d' % rng.randrange(2)
             elif r < 0.22:
                 op = 'C%d' % t
             elif r < 0.36 and d.changes:
@@ -280,6 +286,8 @@ class Spec(object):
                 return 'O' + op[1:].split('.')[0]
             if op[0] == 'E':
                 return 'M' + op[1:]
+            if op[0] == 'Z':
+                return 'N'     # an empty tree, allocated like the constructor's
             return op
         return 'heap ' + ' '.join(tr(op) for op in case)
 
@@ -324,7 +332,7 @@ class Spec(object):
                 elif ti != int(t) and not caller:
                     out.append({'what': 'mutating %s is visible in tree %d through a shared library-allocated object' % (op, ti),
                                 'ops': list(case)})
-        if op[0] in 'NCFP' and changed:
+        if op[0] in 'NCFPQZ' and changed:
             out.append({'what': '%s changed existing objects %r' % (op, changed[:4]), 'ops': list(case)})
         # no sharing of library-allocated objects
         seen = {}
@@ -355,7 +363,7 @@ def explore(ctx, escalate=False, hint=None):
     else:
         budget = (300, 24)
     rule = ('%d random histories of up to %d operations over up to 6 live trees (construct, add_change, add_file, assign a '
-            "caller's dictionary as metadata (6 dictionaries, reuse allowed), parse through ONE shared reader object, observe "
+            "caller's dictionary as metadata (6 dictionaries, reuse allowed), parse through ONE shared reader object (also streams without any section), observe "
             '(to_bytes twice through ONE shared writer object, ==, !=, repr), mutate an options / metadata / metadata-options '
             'dictionary in place); after EVERY step: identity partition of all mutable objects of all live trees vs the heap '
             "model's cells; oracle: a mutation is visible only through the mutated object, constructors / parses change no "
